@@ -55,7 +55,7 @@ class DateProperty(PropertyProtocol):
         if isinstance(value, str):
             try:
                 isoparse(value).date()  # make sure it's a valid value
-            except ValueError as e:
+            except (ValueError, OverflowError) as e:
                 return PropertyError(f"Invalid date: {e}")
             return Value(python_code=f"isoparse({value!r}).date()", raw_value=value)
         return PropertyError(f"Cannot convert {value} to a date")
